@@ -407,6 +407,23 @@ func init() {
 				c.Violate("C08", "truncate-never-returns", fmt.Sprintf("truncation of a chain of 1060 vertices: %s (err %v)", r, terr), info)
 				return nil // the ledger lock is held by the stuck truncation: nothing more to learn in this process
 			}
+			// history reads that are served from storage now (the vertices left the live DAG), then writers
+			post := n.ab.VerifSnapshot()
+			r = withDeadline(5*time.Second, func() {
+				for i := 0; i < len(post.CpVertices) && i < 5; i++ {
+					cv := post.CpVertices[i]
+					n.ab.ReadTransactionByHash(context.Background(), cv.Transaction.Hash)
+					n.ab.ReadVertex(context.Background(), cv.Hash)
+				}
+				if len(post.Vertices) > 0 {
+					n.ab.ReadTransactionByHash(context.Background(), post.Vertices[0].Transaction.Hash)
+				}
+			})
+			c.Rep.Extra["truncate_long_chain_stored"] = len(post.CpVertices)
+			if r != "ok" {
+				c.Violate("C08", "history-read-after-truncation-hangs", "ReadTransactionByHash / ReadVertex of truncated history: "+r, info)
+				return nil
+			}
 			okAll := true
 			for i := 0; okAll && i < 5; i++ {
 				okAll = w.probe(n, "truncate-long-chain", info)
